@@ -485,6 +485,31 @@ func evalPrecompiled(src string, p pathSpec, opts ...risor.Option) (out outcome)
 	return outcome{Res: res, Err: err}
 }
 
+// evalPrecompiledWith is evalPrecompiled with the names of a given base configuration.
+func evalPrecompiledWith(src string, p pathSpec, base []risor.Option, opts ...risor.Option) (out outcome) {
+	defer func() {
+		if r := recover(); r != nil {
+			out = outcome{Panic: fmt.Sprint(r)}
+		}
+	}()
+	ctx := context.Background()
+	ast, err := parser.Parse(ctx, src)
+	if err != nil {
+		return outcome{Err: err}
+	}
+	code, err := compiler.Compile(ast, risor.NewConfig(base...).CompilerOpts()...)
+	if err != nil {
+		return outcome{Err: err}
+	}
+	all := append([]risor.Option{}, opts...)
+	all = append(all, risor.WithOS(ros.NewVirtualOS(ctx)), risor.WithConcurrency())
+	if p.Local {
+		all = append(all, risor.WithLocalImporter(importDir()))
+	}
+	res, err := risor.EvalCode(ctx, code, all...)
+	return outcome{Res: res, Err: err}
+}
+
 func isFallback(o object.Object) bool {
 	s, ok := o.(*object.String)
 	return ok && s.Value() == fallbackMarker
@@ -535,6 +560,14 @@ type caseData struct {
 	Deny     []string `json:"deny,omitempty"`
 	Over     []string `json:"over,omitempty"`
 	Depth    int      `json:"depth,omitempty"`
+
+	// combined configurations (combo.go)
+	Overs []comboOver `json:"overs,omitempty"`
+	Base  string      `json:"base,omitempty"`
+	Split bool        `json:"split,omitempty"`
+	Order uint64      `json:"order,omitempty"`
+	Lo    int         `json:"lo,omitempty"` // combos: slice of the fixed list
+	Hi    int         `json:"hi,omitempty"`
 }
 
 func nameKindSig(ni nameInfo) string {
@@ -1431,6 +1464,17 @@ func worker(kind string, data json.RawMessage) any {
 		}
 	case "subset1":
 		runSubset(o, subsetSpec{Deny: c.Deny, Over: c.Over, Seed: c.Seed}, all)
+	case "combos":
+		fixed := fixedCombos(all)
+		for i := c.Lo; i < c.Hi && i < len(fixed); i++ {
+			runCombo(o, fixed[i], all)
+		}
+		r := mon.NewRand(c.Seed)
+		for i := 0; i < c.N; i++ {
+			runCombo(o, genCombo(r, all), all)
+		}
+	case "combo1":
+		runCombo(o, comboSpec{Deny: c.Deny, Overs: c.Overs, Base: c.Base, Split: c.Split, Order: c.Order, Seed: c.Seed}, all)
 	case "nested":
 		if c.Name != "" {
 			runNested(o, c.Depth, c.Name, c.Mode, c.Sentinel)
@@ -1473,6 +1517,9 @@ func drive(d *mon.Driver, replay string) int {
 		"an import statement cannot produce a replacement that is not a module: with such an override an import error is accepted, the original module is not",
 		"WithGlobals(G) + WithoutGlobal(\"mod.member\") edits the caller's module object in G in place; this is counted as information (info:caller-module-object-edited-in-place), the statement speaks about default globals of independent configurations",
 		"scripts only obtain references, they never call the denied functions; all evaluations run on a VirtualOS",
+		"combined configurations (deny sets x overrides with valid and unconvertible values x default / WithoutDefaultGlobals+WithGlobals(G) / defaults+host globals x shuffled option order): every denied name must be unreachable and unlisted whatever else the configuration contains or rejects; overrides with a value that is valid where it is used must take effect unless the configuration holds a dotted override that Config.init rejects (it stops at the first such override, the others are applied or not depending on map order: either accepted) or a top-level value the VM rejects (every evaluation fails: accepted)",
+		"a name that is both denied and overridden is pinned to what the unchanged tree does: a top-level name ends up replaced, a dotted name ends up removed; the original object is never visible",
+		"a dotted override whose value object.FromGoType cannot convert (Go func, struct, []int, chan, an object.Error, ...) is silently ignored by the configuration and the original stays visible: counted as information (info:dotted-override-with-unconvertible-value-silently-ignored), the statement speaks about a replacement that was installed",
 	}
 	names := enumerate()
 	var cases []mon.Case
@@ -1501,6 +1548,15 @@ func drive(d *mon.Driver, replay string) int {
 		}
 		cases = append(cases, mon.NewCase("nodefaults-identity", "nodefaults", caseData{Kind: "nodefaults"}))
 		cases = append(cases, mon.NewCase("nested", "nested", caseData{Kind: "nested"}))
+		nFixed := len(fixedCombos(names))
+		for lo := 0; lo < nFixed; lo += 10 {
+			cases = append(cases, mon.NewCase(fmt.Sprintf("combos-fixed-%d", lo), "combos", caseData{Kind: "combos", Lo: lo, Hi: lo + 10}))
+		}
+		nCombo := d.N(300, 6000)
+		perC := d.N(15, 100)
+		for i := 0; i < nCombo; i += perC {
+			cases = append(cases, mon.NewCase(fmt.Sprintf("combos-%d", i), "combos", caseData{Kind: "combos", Seed: r.Uint64(), N: perC}))
+		}
 		nSub := d.N(100, 5000)
 		per := d.N(5, 50)
 		for i := 0; i < nSub; i += per {
@@ -1541,7 +1597,7 @@ func drive(d *mon.Driver, replay string) int {
 			d.Distinct(k)
 		}
 		for _, s := range o.Samples {
-			if c.Kind == "names" || c.Kind == "subsets" {
+			if c.Kind == "names" || c.Kind == "subsets" || c.Kind == "combos" {
 				d.Sample(s)
 			}
 		}
@@ -1565,7 +1621,7 @@ func drive(d *mon.Driver, replay string) int {
 	d.Extra("names_enumerated", len(names))
 	d.Extra("names_by_kind", kinds)
 	d.Extra("exhaustive", true)
-	d.Extra("exhaustive_over", "every default top-level name and module.member (identity + independence monitors and every generated access path, deny and override; quick uses one seed-chosen sentinel kind per path, thorough every kind); subsets of names are sampled")
+	d.Extra("exhaustive_over", "every default top-level name and module.member (identity + independence monitors and every generated access path, deny and override; quick uses one seed-chosen sentinel kind per path, thorough every kind); subsets of names and combined configurations (beyond a fixed list run at every seed) are sampled")
 	d.Extra("aliases_info", sortedKeys(aliases))
 	tl := sortedKeys(trivial)
 	if len(tl) > 30 {
